@@ -43,15 +43,29 @@ fn one_case(rep: &Report, case: &Case, rng: &mut Rng) {
         }
         let ctx = SessionContext::new_with_config(cfg.clone());
         register_db_parquet(&ctx, &case.db, &case.layout, dir.path()).await?;
-        let plan = ctx.sql(&sql).await?.create_physical_plan().await?;
-        let text0 = displayable(plan.as_ref()).indent(true).to_string();
-        let mut props0 = vec![];
-        all_props(&plan, &mut props0);
-        let bytes = match physical_plan_to_bytes(plan.clone()) {
+        // planning and running the ORIGINAL plan is not this property's subject: a panic there is a skip
+        let orig = guarded(async {
+            let plan = ctx.sql(&sql).await?.create_physical_plan().await?;
+            let text0 = displayable(plan.as_ref()).indent(true).to_string();
+            let mut props0 = vec![];
+            all_props(&plan, &mut props0);
+            let bytes = physical_plan_to_bytes(plan.clone());
+            let base = match &bytes {
+                Ok(_) => Some(exec_physical(&ctx, plan).await?),
+                Err(_) => None,
+            };
+            Ok::<_, datafusion::error::DataFusionError>((text0, props0, bytes, base))
+        })
+        .await;
+        let (text0, props0, bytes, base) = match orig {
+            Err(p) => return Ok((Some(format!("original-plan-panics/{}", p.rsplit(" @ ").next().unwrap_or("").rsplit('/').next().unwrap_or(""))), vec![], String::new())),
+            Ok(r) => r?,
+        };
+        let bytes = match bytes {
             Ok(b) => b,
             Err(e) => return Ok((Some(format!("encode-rejected/{}", e.to_string().chars().take(60).collect::<String>())), vec![], text0)),
         };
-        let base = exec_physical(&ctx, plan).await?;
+        let base = base.unwrap();
         let mut findings: Vec<(String, vcommon::Json)> = vec![];
         let ctx2 = SessionContext::new_with_config(cfg);
         register_db_parquet(&ctx2, &case.db, &case.layout, dir.path()).await?;
@@ -62,7 +76,10 @@ fn one_case(rep: &Report, case: &Case, rng: &mut Rng) {
                 let mut props1 = vec![];
                 all_props(&back, &mut props1);
                 if strip_run_specific(&text1) != strip_run_specific(&text0) {
-                    findings.push(("plan-text-differs".into(), json!({"sql": sql, "before": text0, "after": text1})));
+                    // known root cause keyed by its own signature: ParquetSource's sort-pushdown state
+                    // (sort_order_for_reorder / reverse_row_groups) has no field in the proto message
+                    let sig = if strip_sort_pushdown(&strip_run_specific(&text1)) == strip_sort_pushdown(&strip_run_specific(&text0)) { "plan-text-differs/parquet-sort-pushdown-options-not-serialized" } else { "plan-text-differs" };
+                    findings.push((sig.into(), json!({"sql": sql, "before": text0, "after": text1})));
                 } else if props0 != props1 {
                     findings.push(("plan-properties-differ".into(), json!({"sql": sql, "before": props0, "after": props1, "plan": text0})));
                 }
@@ -112,11 +129,27 @@ fn strip_run_specific(s: &str) -> String {
     s.lines().map(|l| l.split(", metrics=").next().unwrap_or(l).to_string()).collect::<Vec<_>>().join("\n")
 }
 
+/// remove `, sort_order_for_reorder=[...]` and `, reverse_row_groups=true` from DataSourceExec lines
+fn strip_sort_pushdown(s: &str) -> String {
+    let mut out = String::new();
+    for l in s.lines() {
+        let mut l = l.replace(", reverse_row_groups=true", "");
+        if let Some(i) = l.find(", sort_order_for_reorder=[") {
+            if let Some(j) = l[i..].find(']') {
+                l.replace_range(i..i + j + 1, "");
+            }
+        }
+        out.push_str(&l);
+        out.push('\n');
+    }
+    out
+}
+
 fn run(args: &Args) -> i32 {
     let rep = Report::new("C36", "exploration", args);
     rep.set_rule("case = generated query over Parquet listing tables planned under one of 7 configurations; the physical plan is encoded with the default codec, decoded in a fresh session, compared by verbose indent text, per-node properties (partitioning, orderings, boundedness, emission) and by differential execution; distinct = hash(case, plan text); non-trivial = encoding succeeded");
     rep.assume("encode failures are skips (the property is conditional), counted by reason");
-    let cfg = gen_cfg_from(args, "full");
+    let cfg = gen_cfg_from(args, "simple");
     rep.extra("generator_fragment", json!(format!("{cfg:?}")));
     for_each_case(args, &rep, 0xC36, args.bound("systematic", 400, 3000), args.bound("random", 400, 12000), &cfg, |case, rng, _| one_case(&rep, case, rng));
     rep.obligation("roundtrips", rep.get_count("roundtrips") > 100, "physical plans must actually round-trip");
